@@ -642,12 +642,21 @@ def rule_objective_and_distances(repo, rep):
       body = lp.body
     un = astutil.unfold(objx, body, blk,
                         stop=('w', 'dist_diff', 'n_triplets', 'iter'))
+    # names defined before the loop (the number of triplets)
+    top_ = lp
+    pm_ = astutil.parents(f.node)
+    while top_ not in f.node.body and top_ in pm_:
+      top_ = pm_[top_]
+    if top_ in f.node.body:
+      un = astutil.unfold(un, f.node.body, top_,
+                          stop=('w', 'dist_diff', 'iter', 'best_obj'))
     txt = ast.unparse(un)
     margins = ('1 + np.matmul(dist_diff, w.T)', '1 + dist_diff.dot(w.T)',
                'np.matmul(dist_diff, w.T) + 1', '1 + dist_diff @ w.T',
                'dist_diff.dot(w.T) + 1', 'dist_diff @ w.T + 1')
     scal = {'self.beta': 'beta', 'n_triplets': 'n', 'dist_diff.shape[0]': 'n',
-            'len(dist_diff)': 'n', 'np.sum(w)': 'S', 'w.sum()': 'S'}
+            'len(dist_diff)': 'n', 'np.sum(w)': 'S', 'w.sum()': 'S',
+            'triplets.shape[0]': 'n', 'len(triplets)': 'n'}
     for m in margins:
       scal['np.sum((%s)[%s > 0])' % (m, m)] = 'H'
       scal['(%s)[%s > 0].sum()' % (m, m)] = 'H'
@@ -688,6 +697,37 @@ def rule_objective_and_distances(repo, rep):
                              repo.get_func('scml._BaseSCML._compute_dist_diff'))
   rep.analysed(getattr(h, 'orig', h))
   k3 = 'scml._BaseSCML._compute_dist_diff:'
+  # roles by structure: return A[I[:n]] - A[I[n:]]; A's definition names the
+  # projected points
+  roles = {}
+  for r_ in [r for r in h.node.body if isinstance(r, ast.Return)][-1:]:
+    v_ = r_.value
+    if isinstance(v_, ast.BinOp) and isinstance(v_.left, ast.Subscript) and \
+            isinstance(v_.left.value, ast.Name) and \
+            isinstance(v_.left.slice, ast.Subscript) and \
+            isinstance(v_.left.slice.value, ast.Name):
+      roles[v_.left.value.id] = 'dist'
+      roles[v_.left.slice.value.id] = 'indices'
+      sl_ = v_.left.slice.slice
+      if isinstance(sl_, ast.Slice) and isinstance(sl_.upper, ast.Name):
+        roles[sl_.upper.id] = 'n_triplets'
+      for (n__, dv) in guards.assignments(h.node, v_.left.value.id):
+        if dv is None:
+          continue
+        for x in ast.walk(dv):
+          if isinstance(x, ast.Subscript) and isinstance(x.value, ast.Name) \
+                  and isinstance(x.slice, (ast.Tuple, ast.Subscript)):
+            inner = x.slice.elts[0] if isinstance(x.slice, ast.Tuple) \
+                else x.slice
+            if isinstance(inner, ast.Subscript) and \
+                    isinstance(inner.value, ast.Name):
+              roles.setdefault(x.value.id, 'XB')
+              roles.setdefault(inner.value.id, 'uniqPairs')
+  params_ = set(h.params())
+  roles = dict((k, v) for k, v in roles.items() if k not in params_)
+  hv = astutil.role_view(h, roles) if roles else h
+  if hv is not None:
+    h = hv
   ret = [r for r in h.node.body if isinstance(r, ast.Return)]
   if not ret:
     rep.unknown(R, k3 + 'return', site(h), 'no return')
